@@ -52,6 +52,7 @@ fn main() {
         only_case: kv.get("case").and_then(|c| c.parse().ok()),
         scale: get("scale", "1").parse().unwrap_or(1),
         tmpdir: get("tmp", "/tmp"),
+        dir: get("dir", ""),
         evals: 0,
         checks: 0,
         digests: HashSet::new(),
